@@ -201,7 +201,10 @@ impl Request {
         // set, the flag is cleared, and the slot stays occupied (so a final response still follows)
         old(self).pending_continue() ==> print_attempted(100, true, false) && flush_called(),
         !final(self).pending_continue(),
-        !final(self).answered(),
+        // the type invariant of a Request in the application's hands (unanswered, body reader present: established by
+        // new_request, U-NEWREQ) is preserved by the only public `&mut self` method, so the preconditions of
+        // as_reader / respond / into_writer / upgrade hold whenever the application can call them
+        !final(self).answered(), final(self).has_reader(),
         // requests without the expectation: the writer is not touched at all
         !old(self).pending_continue() ==> final(self).slot() == old(self).slot(),
         final(self).notify_chan() == old(self).notify_chan(),
